@@ -7,7 +7,7 @@
 // Code-unit classes of the model: a, b, H = \uD835 (high surrogate), L = \uDCB3 (low surrogate); "HL" = U+1D4B3.
 if (typeof RXCFG === "undefined") var RXCFG = {engine: "re2", deopt: false};
 var HI = "\uD835", LO = "\uDCB3";
-var SRC = {"a": "a", "ab": "ab", "(?:)": "(?:)", "b*": "b*", "a|b": "a|b", ".": ".", "^a": "^a", "a$": "a$",
+var SRC = {"a": "a", "ab": "ab", "(?:)": "(?:)", "b*": "b*", "b{0,2}": "b{0,2}", "a|b": "a|b", ".": ".", "^a": "^a", "a$": "a$",
            "astral": HI + LO, "loneH": "\\uD835", "(a)|b": "(a)|b"};
 var WHITEBOX = typeof __rxInfo === "function";
 var EXEC_CALLS = 0;
